@@ -107,20 +107,75 @@ class Interp:
         self.regs = []
         self.err = None
         self.nc = []        # number of constraints / private wires after each instruction
+        self.caught = []    # exceptions caught by `tbegin`..`tend` ("instr:class")
         self.mutated = []   # `iop` instructions after which the receiver's ORIGINAL register shows another value ("instr:register")
         self.p = 0
 
+    OPEN = ("genter", "fthen", "felse", "tbegin")
+    CLOSE = ("gleave", "fmid", "fleave", "tend")
+
     def match_leave(self, start):
+        """index of the marker that closes the region opened at `start` (regions of every kind nest properly)"""
         depth = 0
         for j in range(start, len(self.instrs)):
             op = self.instrs[j][0]
-            if op == "genter":
+            if op in self.OPEN:
                 depth += 1
-            elif op == "gleave":
+            elif op in self.CLOSE:
                 depth -= 1
                 if depth == 0:
                     return j
-        raise ValueError("unbalanced genter")
+        raise ValueError("unbalanced " + self.instrs[start][0])
+
+    def push(self, v):
+        self.regs.append(v)
+        self.nc.append((len(B.constraints), len(B.privvals)))
+
+    def selection(self, k):
+        """A selection whose branches are FUNCTIONS, run through the library's own `if_then_else(c, f, g)`:
+             fthen rC; <then body>; fmid; un invert rC; felse rN; <else body>; fleave; fsel rC rT rE     both branches functions
+             fthen rC; <then body>; fmid; fsel rC rT rE                                                   else branch a value
+             felse rN; <else body>; fleave; fsel rC rT rE     (rN = `un invert rC`, executed before)      then branch a value
+        Written so that the model can read it as `genter c; ..; gleave; ~c; genter ~c; ..; gleave; ite c t e` instruction by instruction:
+        the registers of the markers are None, the register of `un invert rC` inside the construct is a second `~cond` (the library
+        computes its own; `~` of a boolean costs no wire and no constraint).  Returns the index of the closing `fsel`."""
+        ins = self.instrs
+        tlo = thi = elo = ehi = inv = None
+        if ins[k][0] == "fthen":
+            tlo, thi = k, self.match_leave(k)
+            j = thi + 1
+            if j + 1 < len(ins) and ins[j][:2] == ["un", "invert"] and ins[j + 1][0] == "felse":
+                inv = j; elo = j + 1; ehi = self.match_leave(elo); j = ehi + 1
+        else:
+            elo, ehi = k, self.match_leave(k); j = ehi + 1
+        if j >= len(ins) or ins[j][0] != "fsel":
+            raise ValueError("selection without fsel")
+        sel = ins[j]
+        cond = self.regs[reg(sel[1])]
+
+        def then_fn():
+            self.pos = tlo; self.push(None)
+            self.run_range(tlo + 1, thi)
+            self.pos = thi; self.push(None)
+            if elo is None:
+                self.pos = j            # what fails from here on fails in the selection itself
+            return self.regs[reg(sel[2])]
+
+        def else_fn():
+            if inv is not None:
+                self.pos = inv; self.push(~self.regs[reg(ins[inv][2])])
+            self.pos = elo; self.push(None)
+            self.run_range(elo + 1, ehi)
+            self.pos = ehi; self.push(None)
+            self.pos = j
+            return self.regs[reg(sel[3])]
+        self.pos = k
+        tv = then_fn if tlo is not None else self.regs[reg(sel[2])]
+        fv = else_fn if elo is not None else self.regs[reg(sel[3])]
+        res = if_then_else(cond, tv, fv)
+        self.pos = j
+        self.push(res)
+        return j
 
     def run_range(self, lo, hi):
         k = lo
@@ -140,6 +195,24 @@ class Interp:
                 guarded(cond)(body)()
                 self.regs.append(None)      # register of gleave
                 self.nc.append((len(B.constraints), len(B.privvals)))
+                k = end + 1
+                continue
+            if ins[0] in ("fthen", "felse"):
+                k = self.selection(k) + 1
+                continue
+            if ins[0] == "tbegin":
+                # `try: <body> except Exception: pass`: whatever the body raises is caught by the caller, who goes on; the registers of
+                # the instructions that did not complete are None
+                end = self.match_leave(k)
+                self.pos = k; self.push(None)
+                try:
+                    self.run_range(k + 1, end)
+                except Exception as e:
+                    self.caught.append(f"{self.pos}:{type(e).__name__}")
+                    del self.regs[end:]; del self.nc[end:]
+                    while len(self.regs) < end:
+                        self.push(None)
+                self.pos = end; self.push(None)
                 k = end + 1
                 continue
             self.pos = k
@@ -186,8 +259,8 @@ class Interp:
             if not isinstance(v, (list, tuple)):
                 raise TypeError("idx")
             return v[int(ins[2])]
-        if op == "gleave":
-            raise ValueError("stray gleave")
+        if op in ("gleave", "fmid", "fleave", "tend", "fsel"):
+            raise ValueError("stray " + op)
         if op == "set":
             if ins[1] == "bl":
                 R.bitlength = int(ins[2])
@@ -266,7 +339,7 @@ def handle_prog(fields):
                 incoh.append(i)
                 break
     nc = ",".join(f"{a}/{b}" for a, b in it.nc[:len(it.regs)])
-    extra = f"UNSAT={','.join(map(str, unsat))}|INCOH={','.join(map(str, incoh))}|DIRTY={int(any(dirty))}|NC={nc}|MUT={','.join(it.mutated)}"
+    extra = f"UNSAT={','.join(map(str, unsat))}|INCOH={','.join(map(str, incoh))}|DIRTY={int(any(dirty))}|NC={nc}|MUT={','.join(it.mutated)}|CAUGHT={','.join(it.caught)}"
     return f"{cid}|{status}|{regs}|{state_str(p)}|{extra}"
 
 
